@@ -154,6 +154,22 @@ def ob_append_circuit_raises(a):
     return [res(name, PROVED, backend="pyvc-opaque", cases=4)]
 
 
+# qubit NAMES of the two operands: composition is by qubit index, whatever the names say
+NAMINGS = ("default", "same names, reversed indices", "same names, rotated indices", "right operand unnamed")
+
+
+def apply_naming(A, B, nq, naming):
+    if naming == "default":
+        return
+    A.qubit_map.clear()
+    A.qubit_map.update({f"n{i}": i for i in range(nq)})
+    B.qubit_map.clear()
+    if naming == "same names, reversed indices":
+        B.qubit_map.update({f"n{i}": nq - 1 - i for i in range(nq)})
+    elif naming == "same names, rotated indices":
+        B.qubit_map.update({f"n{i}": (i + 1) % nq for i in range(nq)})
+
+
 def ob_add(a):
     nq, l1, l2 = a
     name = f"C14.add.post[{nq}q,{l1}+{l2} gates]"
@@ -162,7 +178,40 @@ def ob_add(a):
     n = 0
     for w1 in wire_lists(nq, l1, 2 if l1 + l2 <= 2 else 1):
         for w2 in wire_lists(nq, l2, 2 if l1 + l2 <= 2 else 1):
+          for naming in NAMINGS:
             A, B = mk_circuit(nq, w1), mk_circuit(nq, w2)
+            apply_naming(A, B, nq, naming)
+            sa, sb = snapshot(A), snapshot(B)
+            p = run_hooked(QCircuit.__add__, A, B)
+            n += 1
+    return [res(name, PROVED, backend="pyvc-opaque", secs=time.time() - t0, cases=n)]
+
+
+def ob_append_circuit_raises(a):
+    name = "C14.append_circuit.raises[size mismatch]"
+    from qlasskit.qcircuit import QCircuit
+    bad = []
+    for nqo, nqs, nqub in ((3, 2, 3), (2, 3, 1), (2, 3, 3), (1, 1, 0)):
+        other, selfc = mk_circuit(nqo, [[0]]), mk_circuit(nqs, [])
+        p = run_hooked(QCircuit.append_circuit, selfc, other, list(range(nqub)))
+        if p.kind != "raise" or selfc.gates:
+            bad.append((nqo, nqs, nqub))
+    if bad:
+        return [res(name, REFUTED, backend="pyvc-opaque", replayed=True, replay=dict(accepted=bad, expected="an exception, self unchanged"))]
+    return [res(name, PROVED, backend="pyvc-opaque", cases=4)]
+
+
+def ob_add(a):
+    nq, l1, l2 = a
+    name = f"C14.add.post[{nq}q,{l1}+{l2} gates]"
+    t0 = time.time()
+    from qlasskit.qcircuit import QCircuit
+    n = 0
+    for w1 in wire_lists(nq, l1, 2 if l1 + l2 <= 2 else 1):
+        for w2 in wire_lists(nq, l2, 2 if l1 + l2 <= 2 else 1):
+          for naming in NAMINGS:
+            A, B = mk_circuit(nq, w1), mk_circuit(nq, w2)
+            apply_naming(A, B, nq, naming)
             sa, sb = snapshot(A), snapshot(B)
             p = run_hooked(QCircuit.__add__, A, B)
             n += 1
@@ -179,7 +228,7 @@ def ob_add(a):
                     ok = snapshot(A) == sa and snapshot(B) == sb
             if not ok:
                 return [res(name, REFUTED, backend="pyvc-opaque", secs=time.time() - t0, replayed=True,
-                            replay=dict(a=sa[0], b=sb[0], observed=listview(p.value.gates)[:8] if p.kind == "return" else f"raises {p.value!r}",
+                            replay=dict(a=sa[0], b=sb[0], names_a=sa[2], names_b=sb[2], observed=listview(p.value.gates)[:8] if p.kind == "return" else f"raises {p.value!r}",
                                         a_after=listview(A.gates), b_after=listview(B.gates), call="QCircuit.__add__ on opaque gate tokens"))]
     return [res(name, PROVED, backend="pyvc-opaque", secs=time.time() - t0, cases=n)]
 
@@ -190,13 +239,15 @@ def ob_iadd(a):
     from qlasskit.qcircuit import QCircuit
     for w1 in wire_lists(nq, l1, 1):
         for w2 in wire_lists(nq, l2, 2):
+          for naming in NAMINGS:
             A, B = mk_circuit(nq, w1), mk_circuit(nq, w2)
+            apply_naming(A, B, nq, naming)
             sa, sb = snapshot(A), snapshot(B)
             p = run_hooked(QCircuit.__iadd__, A, B)
-            ok = p.kind == "return" and p.value is A and listview(A.gates) == sa[0] + sb[0] and snapshot(B) == sb
+            ok = p.kind == "return" and p.value is A and listview(A.gates) == sa[0] + sb[0] and snapshot(B) == sb and A.qubit_map == sa[2]
             if not ok:
                 return [res(name, REFUTED, backend="pyvc-opaque", replayed=True,
-                            replay=dict(a=sa[0], b=sb[0], observed=listview(A.gates), call="QCircuit.__iadd__ on opaque gate tokens"))]
+                            replay=dict(a=sa[0], b=sb[0], names_a=sa[2], names_b=sb[2], observed=listview(A.gates), call="QCircuit.__iadd__ on opaque gate tokens"))]
     return [res(name, PROVED, backend="pyvc-opaque")]
 
 
@@ -345,6 +396,15 @@ def _unitary(gs, nq):
                 if all(bits[w] for w in ws[:-1]):
                     nb[ws[-1]] ^= 1
                 M[sum(x << i for i, x in enumerate(nb)), b] = 1
+            elif k == "MCtrl" and type(g.gate).__name__ in one:
+                m = np.array(one[type(g.gate).__name__], dtype=complex)
+                if all(bits[w] for w in ws[:-1]):
+                    for out in (0, 1):
+                        nb = list(bits)
+                        nb[ws[-1]] = out
+                        M[sum(x << i for i, x in enumerate(nb)), b] += m[out, bits[ws[-1]]]
+                else:
+                    M[b, b] = 1
             elif k == "CZ":
                 M[b, b] = -1 if bits[ws[0]] and bits[ws[1]] else 1
             elif k == "Swap":
